@@ -520,11 +520,14 @@ func (m *Mux) serveHTTP(w http.ResponseWriter, r *http.Request) error {
 			Error:     herr,
 		})
 	}
+	if !stream.sentHeader {
+		// Header metadata set by the handler belongs to the response even
+		// when no message follows (an error, or an empty stream).
+		setOutgoingHeader(w.Header(), stream.header)
+	}
 	if herr != nil {
 		if !stream.sentHeader {
 			w.Header().Set("Content-Encoding", "identity") // try to avoid gzip
-			// Header metadata set before the error still belongs to the response.
-			setOutgoingHeader(w.Header(), stream.header)
 		}
 		m.encError(w, r, herr)
 	}
